@@ -1461,6 +1461,39 @@ func main() {
 		}
 		// (f) responses of a real service
 		sv := newSvc()
+		// every reply builder once without and once with meta (all static payloads are hit)
+		one := jobj(mem("a", jnum("1")))
+		for _, meta := range []bool{false, true} {
+			for _, sc := range []*script{
+				{Req: "call", Kind: "ok", Result: &one}, {Req: "auth", Kind: "oknil"}, {Req: "call", Kind: "resource", Rid: "test.model.1"},
+				{Req: "call", Kind: "resource", Rid: "bad..rid"}, {Req: "call", Kind: "error", Code: "custom.code", Msg: "Custom", Data: &one},
+				{Req: "call", Kind: "errornil"}, {Req: "call", Kind: "errorother", Msg: "plain error"}, {Req: "call", Kind: "notfound"},
+				{Req: "auth", Kind: "methodnotfound"}, {Req: "call", Kind: "invalidparams"}, {Req: "call", Kind: "invalidparams", Msg: "bad p"},
+				{Req: "call", Kind: "invalidquery"}, {Req: "auth", Kind: "invalidquery", Msg: "bad q"}, {Req: "access", Kind: "access", Get: true, Call: "set"},
+				{Req: "access", Kind: "access", Get: true}, {Req: "access", Kind: "access", Call: "*"}, {Req: "access", Kind: "access"},
+				{Req: "access", Kind: "denied"}, {Req: "access", Kind: "granted"}, {Req: "call", Kind: "panicerror", Code: "c", Msg: "m"},
+				{Req: "call", Kind: "panicstring", Msg: "boom"}, {Req: "auth", Kind: "panicerr", Msg: "boom"}, {Req: "call", Kind: "noreply"},
+				{Req: "access", Kind: "notfound"}, {Req: "access", Kind: "error", Code: "c", Msg: "m"},
+			} {
+				if meta {
+					sc.Status, sc.Header = 404, [][]string{{"Location", "/x"}}
+				}
+				if c, iv := caseResp(sv, sc); iv != nil {
+					impl = append(impl, *iv)
+				} else {
+					add("response-fixed", c)
+				}
+			}
+		}
+		for _, sc := range []*script{{Req: "new", Kind: "new", Rid: "test.model.2"}, {Req: "new", Kind: "new", Rid: "a b"}, {Req: "get", Kind: "model", Result: &one},
+			{Req: "get", Kind: "model", Result: &one, Query: "q=1"}, {Req: "get", Kind: "collection", Result: &J{K: 'a', A: []J{one}}},
+			{Req: "get", Kind: "collection", Result: &J{K: 'a'}, Query: "q=1"}, {Req: "get", Kind: "notfound"}, {Req: "get", Kind: "noreply"}} {
+			if c, iv := caseResp(sv, sc); iv != nil {
+				impl = append(impl, *iv)
+			} else {
+				add("response-fixed", c)
+			}
+		}
 		for i := scale(350, 7000); i > 0; i-- {
 			c, iv := caseResp(sv, genScript(r))
 			if iv != nil {
